@@ -58,6 +58,8 @@ def run(ctx):
     view = {"VRT_MEM": "view"}
     plan = [("alloc32", n, True, {}), ("alloc16", n, True, {}), ("alloc32", n // 2, True, {"VRT_STRATEGY": "pct"}),
             ("box", n // 2, True, {}), ("box", n // 4, True, {"VRT_STRATEGY": "pct"}), ("threadid", n // 4, False, {}),
+            # glue around the modelled core: Accessor API of the box, leaky flavour of the per-thread ids (oracle only)
+            ("boxacc", n // 4, False, {}), ("leakyid", n // 4, False, {}),
             # weak-memory pass (release/acquire view model, stale loads): oracle only, traces are not SC paths
             ("alloc32", n // 4, False, view), ("alloc16", n // 4, False, view), ("box", n // 4, False, view),
             ("threadid", n // 8, False, view)]
